@@ -5,7 +5,7 @@
     C09 check (KNOWN_FINDINGS.txt, "fixed:" entries; the witnesses are now
     corpus cases of harness/cmd/c09), and ff33d14 ("gas-limit bound is computed
     without int64 casts"). *)
-From Teleport Require Import Base.Bytes Base.Outcome Model.Bsc Model.BscToy.
+From Teleport Require Import Base.Bytes Base.Outcome Model.Bsc Model.BscToy Model.BscRlp Proofs.BscInv.
 Local Open Scope N_scope.
 
 (** "A sealer has not sealed any of the last floor(N/2) blocks": with the old
@@ -56,4 +56,77 @@ Theorem C09_old_gas_bound_cast_refuted :
 Proof.
   exists 18446744073709551615, 5000. split; [vm_compute; reflexivity|].
   split; [vm_compute; discriminate|]. split; [vm_compute; discriminate | vm_compute; reflexivity].
+Qed.
+
+(** "Has not sealed any of the last floor(N/2) blocks" with N the CURRENT set size is false of the code (and of
+    upstream Parlia) right after the set has grown by more than two limit steps: the entries that the small
+    limit already dropped are not there to be checked.  Three validators (limit 2) grow to eight (limit 5) at
+    block 13; C sealed block 10, whose entry left the store at block 12, and seals block 14 although 10 is one of
+    the last four blocks.  This is why [C09_recents_window] speaks about the blocks that are [kept]. *)
+Theorem C09_window_without_kept_refuted :
+  exists k ch h st' cs' b signer,
+    reach toy_hash toy_er k ch /\
+    update_client toy_hash toy_er 1100 (fst k) (snd k) h = (st', ROk cs') /\
+    sealer toy_er (c_chain (fst k)) h = Some signer /\
+    In b ch /\ h_num h < gnum b + limit_of_vals (c_vals (fst k)) /\ gb_sealer b = signer /\
+    limit_of_vals (c_vals (fst k)) = 5 /\ ~ kept ch b.
+Proof.
+  assert (Hw : forall h, h_num h < 100 -> len (h_extra h) < 1000 -> wf_hdr h).
+  { intros h H1 H2. unfold wf_hdr. unfold two64. split; lia. }
+  eexists (_, _). eexists. exists w14. eexists. eexists. eexists. eexists.
+  split.
+  - eapply (reach_step toy_hash toy_er _ _ _ 1100 w13).
+    + eapply (reach_step toy_hash toy_er _ _ _ 1100 w12).
+      * eapply (reach_step toy_hash toy_er _ _ _ 1100 w11).
+        -- eapply (reach_step toy_hash toy_er _ _ _ 1100 w10).
+           ++ eapply (reach_step toy_hash toy_er _ _ _ 1100 w9).
+              ** eapply (reach_create toy_hash toy_er cs3 c3).
+                 --- vm_compute. reflexivity.
+                 --- vm_compute. reflexivity.
+                 --- apply Hw; vm_compute; reflexivity.
+                 --- vm_compute. reflexivity.
+              ** vm_compute. reflexivity.
+              ** vm_compute. reflexivity.
+              ** apply Hw; vm_compute; reflexivity.
+              ** vm_compute. reflexivity.
+           ++ vm_compute. reflexivity.
+           ++ vm_compute. reflexivity.
+           ++ apply Hw; vm_compute; reflexivity.
+           ++ vm_compute. reflexivity.
+        -- vm_compute. reflexivity.
+        -- vm_compute. reflexivity.
+        -- apply Hw; vm_compute; reflexivity.
+        -- vm_compute. reflexivity.
+      * vm_compute. reflexivity.
+      * vm_compute. reflexivity.
+      * apply Hw; vm_compute; reflexivity.
+      * vm_compute. reflexivity.
+    + vm_compute. reflexivity.
+    + vm_compute. reflexivity.
+    + apply Hw; vm_compute; reflexivity.
+    + vm_compute. reflexivity.
+  - cbn [fst snd]. split; [vm_compute; reflexivity|]. split; [vm_compute; reflexivity|].
+    split; [right; right; right; left; reflexivity|].
+    split; [vm_compute; reflexivity|]. split; [vm_compute; reflexivity|]. split; [vm_compute; reflexivity|].
+    unfold kept. intro K.
+    (* block 12 (the third entry of the chain) had retention limit 2: 12 < 10 + 2 fails *)
+    match goal with
+    | K : forall j, In j (?b13 :: ?b12 :: _) -> _ |- _ =>
+        specialize (K b12 (or_intror (or_introl eq_refl)))
+    end.
+    vm_compute in K. specialize (K eq_refl). discriminate K.
+Qed.
+
+(** "Direct child of its head: ... parent hash".  The block hash of a header whose number is 2^63 or more is
+    keccak256 of NOTHING (Header.Hash drops the RLP error for the negative big.Int number): two heads that
+    differ in number, state root and everything else have the same hash, for every hash function.  The
+    parent-hash link therefore binds nothing from height 2^63 on ([C09_block_hash_covers] has the premise
+    [h_num h < 2^63]; unreachable for a real BSC chain, reachable only through a client created up there). *)
+Theorem C09_block_hash_above_2p63_refuted :
+  exists h1 h2, h_num h1 <> h_num h2 /\ h_root h1 <> h_root h2 /\ h_coinbase h1 <> h_coinbase h2 /\
+    forall keccak, block_hash keccak h1 = block_hash keccak h2.
+Proof.
+  exists (mk_header 9223372036854775808 (zeros 32) vA 1 []), (mk_header 9223372036854775813 (zeros 32) vB 2 []).
+  split; [vm_compute; discriminate|]. split; [vm_compute; discriminate|]. split; [vm_compute; discriminate|].
+  intro keccak. unfold block_hash. f_equal.
 Qed.
